@@ -118,6 +118,23 @@ def simulate_and_monitor(ctx, spec, case, monitors, nontrivial=None, key_extra='
         ctx.count('relations_redeclared:' + kind_)
     runs = B.run_schedule(b)
     ctx.current_built = b
+    for tr_, rr_ in list(b.captures) + [(None, runs)]:
+        for r_ in rr_:
+            if r_['exc'] or r_['stop'] or not r_['dt'] > 0:
+                continue
+            # a run without a stop condition (or with the never-true probe) covers its whole duration, whatever happens in it
+            exp_ = int(math.ceil(round(r_['T'] / r_['dt'], 9))) + (1 if r_['fresh'] else 0)
+            ctx.count('runs_checked_for_full_duration')
+            if r_['n1'] - r_['n0'] != exp_:
+                ctx.violation('sanitizer:run-without-stop-condition-did-not-cover-its-duration', {'recorded_instants_of_the_run': r_['n1'] - r_['n0'], 'expected': exp_,
+                                                                                                 'dt': r_['dt_q'], 'T': r_['T_q'], 'fresh': r_['fresh'], 'control': r_['control'], 'probe': r_['probe']}, case)
+                return None
+    if getattr(b, 'modified_run_arguments', None):
+        ctx.violation('sanitizer:run-argument-modified-by-the-run', {'arguments': b.modified_run_arguments[:2]}, case)
+        return None
+    if getattr(b, 'modified_thresholds', None):
+        ctx.violation('sanitizer:stop-condition-threshold-modified-by-the-run', {'thresholds': b.modified_thresholds[:2]}, case)
+        return None
     ctx.count('rejected_run_calls', getattr(b, 'rejected_runs', 0))
     ctx.count('live_quantities_converted_in_place_between_runs', getattr(b, 'reported', 0))
     ctx.count('bystander_model_operations', getattr(b, 'bystander_ops', 0))
